@@ -437,3 +437,23 @@ pub fn digest_out_opt(d: u64, o: &RunOut, with_stdout: bool) -> u64 {
     }
     d
 }
+
+/// Command-line flags that must not change what the properties talk about
+/// (same flags in a reference run and in the run under test). Drawn
+/// swarm-style: each with a small probability.
+pub fn gen_harmless_flags(rng: &mut Rng, exclude: &[&str]) -> Vec<String> {
+    let pool = ["--line-buffered", "--block-buffered", "--no-ignore", "--hidden", "-i", "-S", "--no-unicode", "--no-ignore-messages", "--one-file-system", "--no-require-git", "-uu", "--no-ignore-parent", "--engine=default", "--dfa-size-limit=10M", "--regex-size-limit=10M", "--no-pcre2-unicode", "--no-config"];
+    let mut v: Vec<String> = vec![];
+    for f in pool {
+        if exclude.contains(&f) {
+            continue;
+        }
+        if rng.chance(1, 12) {
+            if f == "--block-buffered" && v.iter().any(|x| x == "--line-buffered") {
+                continue;
+            }
+            v.push(f.to_string());
+        }
+    }
+    v
+}
